@@ -36,10 +36,11 @@ SOLVER_PARAMS = ['rhol', 'rhor', 'pl', 'pr', 'ul', 'ur', 'gamma', 'niter',
 ITERATIVE = ('exact', 'van_leer')
 # solvers with a reflect_ theorem in Props/C15.lean ...
 PROVED = ('non_diffusive', 'van_leer', 'hlle', 'roe', 'llxf', 'hllc_ball',
-          'hll_ball', 'hllsy')
-# ... and those whose reflection symmetry is only stated there
-# (ReflectSymRemaining) and judged by the oracle below
-STATED_ONLY = ('exact', 'hllc', 'ducowicz')
+          'hll_ball', 'hllsy', 'hllc', 'exact')
+# ... and the one whose reflection symmetry is proved there only under an
+# explicit hypothesis on the data (reflect_ducowicz_partial; the full statement
+# is the def ReflectSymDucowicz) and is judged by the oracle below
+STATED_ONLY = ('ducowicz',)
 DISPATCH = ['non_diffusive', 'van_leer', 'exact', 'hllc', 'ducowicz', 'hlle',
             'roe', 'llxf', 'hllc_ball', 'hll_ball', 'hllsy']   # documented method numbers
 
@@ -156,6 +157,19 @@ def rtol_for(name, st):
     return 1e-7 + (st['tol'] if name in ITERATIVE else 0.0)
 
 
+def reflect_key(name, st):
+    """class of failing input for a reflection failure.  `ducowicz` has its own
+    class on the measure-zero set umin == umax (the two sign tests of cases C and
+    D both passed there before the fix proposed_fixes/C15-ducowicz-case-c-guard.diff)"""
+    if name == 'ducowicz':
+        al = 0.5 * (st['gamma'] + 1.0)
+        umin = st['ur'] - 0.5 * math.sqrt(st['gamma'] * st['pr'] * st['rhor']) / al
+        umax = st['ul'] + 0.5 * math.sqrt(st['gamma'] * st['pl'] * st['rhol']) / al
+        if umin == umax:
+            return 'C15:reflect:ducowicz-umin-eq-umax'
+    return 'C15:reflect:%s' % name
+
+
 def chk_reflect(name, st):
     a, b = call(name, st), call(name, mirror(st))
     if a[0] != 'ok' or b[0] != 'ok':
@@ -178,7 +192,7 @@ def chk_reflect(name, st):
     t = rtol_for(name, st)
     ep, eu = abs(a[2] - b[2]) / P, abs(a[3] + b[3]) / U
     if ep > t or eu > t:
-        return ('C15:reflect:%s' % name,
+        return (reflect_key(name, st),
                 'p*(mirror)=p* and u*(mirror)=-u* within %.1e of the problem scales' % t,
                 'orig=(%r,%r) mirror=(%r,%r) rel.dev p %.3e u %.3e' % (a[2], a[3], b[2], b[3], ep, eu))
     return None
@@ -500,6 +514,21 @@ CORPUS = [
                    gamma=1.4, niter=40, tol=1e-6)},
     {'check': 'equal', 'solver': None,
      'state': dict(rhol=1.0, rhor=1.0, pl=1.0, pr=1.0, ul=0.75, ur=0.75, gamma=1.4, niter=20, tol=1e-6)},
+    # ducowicz on umin == umax (ur - ul = (csl + csr)/(gamma + 1), csl = sqrt(gamma pl rhol)): before
+    # proposed_fixes/C15-ducowicz-case-c-guard.diff both the sign test of case C and the untested one of
+    # case D passed and the two orientations took non-mirror branches
+    {'check': 'reflect', 'solver': 'ducowicz',
+     'state': dict(rhol=0.25, rhor=0.5, pl=0.5, pr=0.25, ul=0.0, ur=1.0 / 3.0, gamma=2.0, niter=20, tol=1e-6)},
+    {'check': 'reflect', 'solver': 'ducowicz',
+     'state': dict(rhol=0.5, rhor=0.25, pl=0.25, pr=0.5, ul=-1.0 / 3.0, ur=-0.0, gamma=2.0, niter=20, tol=1e-6)},
+    {'check': 'reflect', 'solver': 'ducowicz',
+     'state': dict(rhol=1.0, rhor=4.0, pl=3.0, pr=3.0, ul=0.0, ur=2.25, gamma=3.0, niter=20, tol=1e-6)},
+    {'check': 'reflect', 'solver': 'ducowicz',
+     'state': dict(rhol=4.0, rhor=1.0, pl=3.0, pr=3.0, ul=-2.25, ur=-0.0, gamma=3.0, niter=20, tol=1e-6)},
+    # known finding C15:raises:ducowicz: equal densities and umin == umax make case A 0/0
+    # (c = d = a = 0): ZeroDivisionError under CPython
+    {'check': 'reflect', 'solver': 'ducowicz',
+     'state': dict(rhol=1.0, rhor=1.0, pl=3.0, pr=3.0, ul=0.0, ur=1.5, gamma=3.0, niter=20, tol=1e-6)},
 ]
 
 
@@ -536,7 +565,7 @@ def main():
     R.count('solvers:%d' % len(names))
     thorough = a.tier == 'thorough'
     for c in CORPUS:
-        for n in names:
+        for n in ([c['solver']] if c['solver'] in names else names if c['solver'] is None else []):
             cc = dict(c, solver=n, state=dict(c['state']))
             r = eval_check(cc)
             R.count('corpus:%s' % c['check'])
